@@ -34,7 +34,7 @@ ASSUMPTIONS = ['a request\'s generator is consumed to its end (or to the excepti
                'string readers) is outside the claim (C05\'s exclusion)',
                'process filter: commutes when the records that attribute threads to processes survive the event-level filter '
                '(otherwise: known finding K3)',
-               'the caller does not change the filter attributes while a request is being consumed']
+               'the caller does not change the thread / process / subclass attributes while a request is being consumed (the class list may change: a request fixes it when it is made)']
 
 T_START, T_END, T_NONE = PL.START, PL.END, PL.NONE
 CLASS_LISTS = [[], [], [], [4], [4], [1], [7], [3], [4, 7], [0x25], [0x1f], [4, 3], [1, 4], [0x25, 0x1f], [4, 1, 7, 3], [9],
@@ -510,6 +510,105 @@ def check_bundled_closed(rep):
         rep.broken.append('assumption ClassClosed fails for the bundled code table: ' + '; '.join(bad[:5]))
 
 
+def lazy_cases(rng, n):
+    """Requests whose generators are consumed AFTER the caller has put other class lists on the same parser object (set,
+    request, restore, consume) or interleaved with a later request made under another class list.  Only the class list
+    changes: it is the one setting a request fixes when it is made (the helper classes are added to a copy of it)."""
+    out = []
+    for i in range(n):
+        shape = rng.choice(['restore', 'restore', 'interleave', 'interleave3'])
+        mode = 'static' if shape != 'restore' else rng.choice(['static', 'class7', 'any'])
+        dump = gen_dump(rng, mode)
+        cfg = gen_cfg(rng, dump, mode)
+        cfg['process'] = None
+        k = {'restore': 2, 'interleave': 2, 'interleave3': 3}[shape]
+        lists = [list(rng.choice(CLASS_LISTS)) for _ in range(k)]
+        if not any(lists) or i % 3 == 0:
+            lists[0] = list(rng.choice([[4], [4], [1], [4, 7], [3], [4, 3], [0x25]]))
+        if i % 4 == 0:
+            lists[1] = []
+        out.append({'tmap': dump['tmap'], 'events': dump['events'], 'codes': dump['codes'], 'cfg': cfg, 'lists': lists,
+                    'shape': shape, 'order_seed': rng.randrange(1 << 30), 'mode': mode, 'stream': 'main'})
+    return out
+
+
+def run_lazy(case):
+    """-> per request: (digest of the lazily consumed request, digest of the same request made and consumed at once on a
+    fresh parser object)."""
+    import random
+    codes = {int(k): v for k, v in case['codes'].items()}
+    data = dump_bytes(case)
+    show = lambda t: trace_digest(codes, t)  # noqa: E731
+    p = make_parser(dict(case['cfg'], classes=[]))
+    gens = []
+    nreq = 1 if case['shape'] == 'restore' else len(case['lists'])
+    for cl in case['lists'][:nreq]:
+        p.filter_class = list(cl)
+        gens.append(iter(p.traces(io.BytesIO(data), codes)))
+    if case['shape'] == 'restore':
+        p.filter_class = list(case['lists'][1])          # the caller puts its previous settings back, then consumes
+    outs = [[] for _ in gens]
+    errs = ['-' for _ in gens]
+    alive = list(range(len(gens)))
+    r = random.Random(case['order_seed'])
+    while alive:
+        i = r.choice(alive)
+        try:
+            outs[i].append(show(next(gens[i])))
+        except StopIteration:
+            alive.remove(i)
+        except Exception as e:
+            errs[i] = core.err_name(e)
+            alive.remove(i)
+    res = []
+    for i in range(nreq):
+        q = make_parser(dict(case['cfg'], classes=case['lists'][i]))
+        res.append(('T ' + (' '.join(outs[i]) or '-') + ' !' + errs[i], request(q, 't', data, codes)))
+    return res
+
+
+def lazy_section(rep, rng, tier):
+    sec = rep.section('trace-lazy-requests')
+    sec['rule'] = ('one parser object; a traces() request made under class list A is consumed after the caller has put class '
+                   'list B on the object (set, request, restore, consume), or interleaved item by item with 1-2 later requests '
+                   'made under other class lists (dumps without re-declaring records, so the shared tables stay constant); '
+                   'thread / subclass settings fixed; every lazily consumed request vs the Lean model of that request and vs '
+                   'the same request made and consumed at once on a fresh object')
+    cases = lazy_cases(rng, 80 if tier == 'quick' else 3000)
+    lines, pairs = [], []
+    for c in cases:
+        try:
+            res = run_lazy(c)
+        except Exception as e:
+            rep.add_failure('filters:raises', 'a lazily consumed request raised outside its generator: ' + core.err_name(e),
+                            {'section': 'trace-lazy-requests', 'case': c})
+            continue
+        for i, (lazy, eager) in enumerate(res):
+            one = dict(c, cfg=dict(c['cfg'], classes=c['lists'][i]), reqs='t')
+            lines.append(line(one))
+            pairs.append((c, i, lazy, eager))
+    model = core.drive(lines) if lines else []
+    for (c, i, lazy, eager), m, ln in zip(pairs, model, lines):
+        sec['cases'] += 1
+        sec['dist'][c['shape']] = sec['dist'].get(c['shape'], 0) + 1
+        if 'Unmodelled' not in m and m.startswith('ok '):
+            if parse_answer(m)[0][0] != lazy:
+                sec['mismatches'] += 1
+                if len(rep.first_diffs) < 10:
+                    rep.first_diffs.append({'section': 'trace-lazy-requests', 'line': ln[:1500], 'model': m[:600],
+                                            'impl': lazy[:600]})
+        if lazy != eager:
+            rep.add_failure('filters:lazy-request-follows-later-settings',
+                            'request %d made under filter_class=%s (%s; the other class lists put on the object: %s) reports %s '
+                            '— the same request consumed at once on a fresh object reports %s'
+                            % (i, c['lists'][i], c['shape'], [l for j, l in enumerate(c['lists']) if j != i], lazy[:400],
+                               eager[:400]), {'section': 'trace-lazy-requests', 'case': c})
+        elif c['lists'][i] and '|' in lazy:
+            sec['distinct_nontrivial'] += 1
+    if sec['mismatches']:
+        rep.broken.append('correspondence:trace-lazy-requests (%d of %d requests differ)' % (sec['mismatches'], sec['cases']))
+
+
 def correspondence(rep, rng, tier):
     from .. import pipeline as _PL
     _PL.section_e2e(rep, rng, tier, n=(120 if tier == 'quick' else 4000))
@@ -531,6 +630,7 @@ def correspondence(rep, rng, tier):
                      'outputs of repeated requests, filter attributes afterwards; plus dumps whose samples precede and follow '
                      'the announcement of the images holding their frames, under repeated callstacks requests',
                 skip_fn=lambda m: 'Unmodelled' in m)
+    lazy_section(rep, rng, tier)
     k3 = k3_cases(rng, 60 if tier == 'quick' else 1500)
     run_section(rep, 'trace-filters-K3', k3, line, impl_fn, oracle, nontrivial_fn=lambda c, g: True,
                 kind_fn=lambda c, g: c['mode'],
@@ -555,6 +655,18 @@ def replay(path):
         print(json.dumps(r, indent=1)[:4000])
         return 1
     case = r['replay']['case']
+    if r['replay'].get('section') == 'trace-lazy-requests':
+        bad = 0
+        print('filters:', case['cfg'], ' class lists:', case['lists'], ' shape:', case['shape'])
+        for i, (lazy, eager) in enumerate(run_lazy(case)):
+            print('request %d lazily :' % i, lazy[:1500])
+            print('request %d at once:' % i, eager[:1500])
+            bad += lazy != eager
+        if bad:
+            print(f'VIOLATION property=C13 replay={path}')
+            return 1
+        print('oracle: property holds on this input')
+        return 0
     if r['replay'].get('section') == 'end-to-end':
         from .. import pipeline as _PL
         return _PL.replay_e2e(case, 'C13', path)
